@@ -414,56 +414,42 @@ func (m *Memory) FindLatest(
 
 		machId := mach.Id()
 		mTimeIdxs := mach.Index(s.MTimeStates)
-		var older *amhist.MemoryRecord
-		r := &amhist.MemoryRecord{
-			Time: &amhist.TimeRecord{},
-		}
 		var ret []*amhist.MemoryRecord
 
+		// readTime returns the time record of the passed ID, or nil
+		readTime := func(id uint64) (*amhist.MemoryRecord, error) {
+			if id == 0 {
+				return nil, nil
+			}
+			v, err := getVal(txn, timeKey(machId, id))
+			if err != nil || v == nil {
+				m.log("empty hit for %d", id)
+				return nil, nil
+			}
+			t, err := DecTimeRecord(machId, id, v, cfg.EncJson)
+			if err != nil {
+				return nil, err
+			}
+
+			return &amhist.MemoryRecord{Time: t}, nil
+		}
+
+		// newest to oldest, [older] is the record right below [r]
+		id := m.nextId.Load() - 1
+		r, err := readTime(id)
+		if err != nil {
+			m.onErr(err)
+			return nil
+		}
+		var older *amhist.MemoryRecord
+
 	records:
-		for id := m.nextId.Load() - 1; id > 0; id-- {
+		for ; r != nil; id, r = id-1, older {
 			if ctx.Err() != nil || m.Ctx.Err() != nil {
 				return nil
 			}
 
-			v, err := getVal(txn, timeKey(machId, id))
-			if err != nil {
-				m.log("empty hit for %d", id)
-				break
-			}
-
-			// read TimeRecord
-			// 1st pass, move 1 more down
-			if older == nil {
-				id--
-				r.Time, err = DecTimeRecord(machId, id, v, cfg.EncJson)
-				v2, err2 := getVal(txn, timeKey(machId, id))
-				if err2 == nil {
-					older = &amhist.MemoryRecord{
-						Time: &amhist.TimeRecord{},
-					}
-					older.Time, err = DecTimeRecord(machId, id, v2, cfg.EncJson)
-					if err != nil {
-						m.onErr(err)
-						return nil
-					}
-				}
-
-				// 2nd and later passes
-			} else if v != nil {
-				r = older
-				older = &amhist.MemoryRecord{
-					Time: &amhist.TimeRecord{},
-				}
-				older.Time, err = DecTimeRecord(machId, id, v, cfg.EncJson)
-				// TODO tx
-
-				// last pass
-			} else {
-				r = older
-				older = nil
-			}
-			// err
+			older, err = readTime(id - 1)
 			if err != nil {
 				m.onErr(err)
 				return nil
